@@ -7,7 +7,7 @@
 (***************************************************************************)
 EXTENDS Tensor, Gen, Json
 
-CONSTANTS MaxRank, MaxDim, MaxDim4, Ctors, Rich
+CONSTANTS MaxRank, MaxDim, MaxDim4, Ctors, Rich, Deep   \* Deep: only the layouts three or more steps from construction
 
 Shapes == UNION {ShapesOfRank(r, IF r >= 4 THEN MaxDim4 ELSE MaxDim) : r \in 0..MaxRank}
 
@@ -56,7 +56,16 @@ Next ==
              /\ \E sl \in SliceListsPrefix(live[1].shape, AxisPaletteSmall) :
                   /\ ~SliceBad(live[1].shape, sl) /\ ~SliceOpen(live[1].shape, sl)
                   /\ DoX(Op("Slice", 1, sl))
-    \/ /\ Len(steps) \in {1, 2, 3}
+    \* three transpositions in a row of a column-major tensor, or of a sliced view (do; undo or redo; do again)
+    \/ /\ Deep /\ Len(steps) \in {3, 4} /\ LastOK /\ LastK = "T" /\ steps[Len(steps) - 1].op.k = "T"
+       /\ Cardinality({i \in 1..Len(steps) : steps[i].op.k = "T"}) = 2
+       /\ (steps[1].op.a[2] = "F" \/ steps[2].op.k = "Slice")
+       /\ Len(live[Len(live)].shape) \in 2..3
+       /\ \E p \in Perms(Len(live[Len(live)].shape)) : ~IsIdent(p) /\ DoX(Op("T", Len(live), p))
+    \/ /\ Deep /\ Len(steps) = 3 /\ LastOK /\ LastK = "T" /\ steps[2].op.k = "Slice" /\ steps[1].op.a[2] = "C"
+       /\ Len(live[Len(live)].shape) \in 2..3
+       /\ DoX(Op("T", Len(live), InvPerm(IF steps[3].op.a = <<>> THEN Reversal(Len(live[Len(live)].shape)) ELSE steps[3].op.a)))
+    \/ /\ Len(steps) \in (IF Deep THEN {4, 5} ELSE {1, 2, 3})
        /\ LastK # "AtBox" /\ LastOK
        /\ DoX(Op("AtBox", Len(live), <<>>))
 
